@@ -78,6 +78,11 @@ psf_get_chunk_iterator (SF_PRIVATE * psf, const char * marker_str)
 		psf->iterator->id_size = (unsigned) marker_len ;
 		psf->iterator->hash = hash ;
 		}
+	else
+	{	/* Iterate over all chunks : forget the id of an earlier iteration. */
+		psf->iterator->id_size = 0 ;
+		psf->iterator->hash = 0 ;
+		} ;
 
 	psf->iterator->current = idx ;
 
